@@ -74,11 +74,20 @@ def mutants():
 
 
 def run(cmd, cwd, timeout, env=None):
+    """own process group, killed as a whole on timeout: a mutant can make a TEST BINARY spin forever, and killing only `cargo test`
+    leaves that grandchild running (one such leftover burned eight cores for seven hours during the build phase)"""
+    import signal
+    p = subprocess.Popen(cmd, cwd=cwd, stdout=subprocess.PIPE, stderr=subprocess.STDOUT, text=True, env=env, start_new_session=True)
     try:
-        p = subprocess.run(cmd, cwd=cwd, stdout=subprocess.PIPE, stderr=subprocess.STDOUT, text=True, timeout=timeout, env=env)
-        return p.returncode, p.stdout
-    except subprocess.TimeoutExpired as e:
-        return 124, (e.stdout or "") if isinstance(e.stdout, str) else ""
+        out, _ = p.communicate(timeout=timeout)
+        return p.returncode, out
+    except subprocess.TimeoutExpired:
+        try:
+            os.killpg(p.pid, signal.SIGKILL)
+        except ProcessLookupError:
+            pass
+        out, _ = p.communicate()
+        return 124, out or ""
 
 
 def main():
